@@ -57,6 +57,7 @@ type bridgeState struct {
 	parsListeners []value
 	outcome       *ParseResult // nondeterministic mode: outcome chosen by the harness
 	owner         map[*value]string
+	forced        []value // lexErr, gramErr, listenerErr chosen by the harness (may be symbolic)
 }
 
 func (i *interpreter) deepZeroPtr(t types.Type, depth int, tag string) value {
@@ -184,6 +185,27 @@ func (i *interpreter) bridgeWalk(fr *frame, listener value) {
 		if err != nil {
 			panic(unsupported{"parser bridge failed: " + err.Error()})
 		}
+	}
+	if b.forced != nil && b.text == outcomeGoodText {
+		// nondeterministic front end: the harness decides which error kinds occur
+		cp := *pr
+		cp.LexErrors, cp.ParseErrors, cp.ListenerErrors = nil, nil, nil
+		flag := func(v value) bool {
+			if s, ok := v.(sym); ok {
+				return i.branch(s.T)
+			}
+			return v.(bool)
+		}
+		if flag(b.forced[0]) {
+			cp.LexErrors = []SynErr{{Line: 3, Col: 12, Msg: "token recognition error at: '#'"}}
+		}
+		if flag(b.forced[1]) {
+			cp.ParseErrors = []SynErr{{Line: 9, Col: 0, Msg: "missing 'end' at '<EOF>'"}}
+		}
+		if flag(b.forced[2]) {
+			cp.ListenerErrors = []string{"already existed entity's name \"x\""}
+		}
+		pr = &cp
 	}
 	if pr.Panic != "" {
 		// the real front end panicked on this text: same effect here
